@@ -90,8 +90,10 @@ class Evaluator:
                 t, pol = canon_fact(n.ast, kind == "true")
                 if t == "sys.platform == 'win32'":
                     return None if pol else v
-                if status in q.names_in(n.ast):
-                    truth = bool(self.fold(n.ast, status, cls, depth))
+                from .x_flow import expand_locals
+                test_ = expand_locals(h, n.ast, keep={status})
+                if status in q.names_in(test_):
+                    truth = bool(self.fold(test_, status, cls, depth))
                     if truth != (kind == "true"):
                         return None
             return v
